@@ -105,16 +105,28 @@ def rand_layout(rng, nb, maxfile):
     return {"file": file, "disk": disk}
 
 
-def make_inputs(kit, rng, ndims, big=True):
+def make_inputs(kit, rng, ndims, big=True, blanks=True):
     """Two generated plotfiles A and B on one mesh with independent layouts; returns their field lists."""
     nl = rng.randint(1, 4 if big else 2)
     maxb = 12 if big else 4
     classes = [[rng.randint(1, 3) for _ in range(rng.randint(1, maxb))] for _ in range(nl)]
     nfa = rng.randint(2, 12 if big else 4)
-    fa = ["a%d" % i for i in range(nfa)]
+    # names: plain, or awkward but legal (one a prefix of another, parentheses, dots, digits; a blank only where no tool of the
+    # history takes names as one blank-separated string)
+    if rng.random() < 0.5:
+        pa = ["a%d" % i for i in range(12)]
+        pb = ["b%d" % i for i in range(6)]
+    else:
+        pa = ["temp", "temperature", "Y(H2)", "Y(H2O)", "rho.E", "x_velocity", "density", "density2", "I_R(CH4)", "T-1", "mag", "magvort"]
+        pb = ["p", "pressure", "Y(O2)", "Y(O)", "avg_pressure", "divu"]
+        if blanks:
+            pa[-1], pb[-1] = "mag vort", "div u"
+        rng.shuffle(pa)
+        rng.shuffle(pb)
+    fa = pa[:nfa]
     # B shares some names with A (combine must skip them) and brings new ones
     shared = rng.sample(fa, rng.randint(0, min(2, nfa)))
-    fb = shared + ["b%d" % i for i in range(rng.randint(1, 6 if big else 3))]
+    fb = shared + pb[:rng.randint(1, 6 if big else 3)]
     rng.shuffle(fb)
     cfg_ = gamma.Config.draw(rng, ndims=ndims, payload="tame")
     rel = rng.choice(["independent", "independent", "same", "same-files"])
@@ -140,7 +152,8 @@ def rand_fsel(rng, fields):
     n = len(fields)
     k = rng.choice(["name", "name", "int", "ilist", "nlist", "slice", "slice"])
     if k == "name":
-        return {"k": "name", "v": rng.choice(fields + ["zz"] if rng.random() < 0.15 else fields)}
+        return {"k": "name", "v": rng.choice(fields + [fields[0] + "_", (fields[-1][:-1] if fields[-1][:-1] not in fields else "zz") or "zz"]
+                                            if rng.random() < 0.15 else fields)}
     if k == "int":
         return {"k": "int", "v": rng.randint(-n, n) if rng.random() < 0.3 else rng.randrange(n)}
     if k == "ilist":
@@ -245,7 +258,7 @@ def record_history(chk, hseed, kinds, tid, ndims=3, big=True, nops=4, asset=None
         shutil.copytree(asset, kit.path("A"))
         present = ["A"]
     else:
-        make_inputs(kit, rng, ndims, big)
+        make_inputs(kit, rng, ndims, big, blanks="cook" not in kinds)
         present = ["A", "B"]
     conts = {}
     for d in present:
@@ -280,7 +293,8 @@ def record_history(chk, hseed, kinds, tid, ndims=3, big=True, nops=4, asset=None
                 m = rng.randint(1, len(fields))
                 vs = rng.sample(fields, m)
                 if rng.random() < 0.2:
-                    vs.insert(rng.randrange(len(vs) + 1), "zz")
+                    # an unknown name: a proper prefix of a known one
+                    vs.insert(rng.randrange(len(vs) + 1), fields[0][:-1] if len(fields[0]) > 1 and fields[0][:-1] not in fields else "zz")
             L = rng.randrange(nlev[src])
             nout += 1
             out = "d%d" % nout
